@@ -114,6 +114,12 @@ fn in_process(st: &mut Stats, quick: bool) {
         Some(", 127.0.0.5"),
         Some("[2001:db8::1]:4711, 127.0.0.5"),
         Some("unknown, 8.8.8.8, 203.0.113.50"),
+        // long chains (a request that went through many proxies): the listed address last, first, and in the middle
+        Some("8.8.8.1, 8.8.8.2, 8.8.8.3, 8.8.8.4, 8.8.8.5, 8.8.8.6, 8.8.8.7, 127.0.0.5"),
+        Some("8.8.8.1, 8.8.8.2, 8.8.8.3, 8.8.8.4, 8.8.8.5, 8.8.8.6, 8.8.8.7, 8.8.8.8, 127.0.0.5"),
+        Some("8.8.8.1,8.8.8.2,8.8.8.3,8.8.8.4,8.8.8.5,8.8.8.6,8.8.8.7,8.8.8.8,8.8.8.9,8.8.8.10,8.8.8.11,8.8.8.12,8.8.8.13,8.8.8.14,8.8.8.15,8.8.8.16,203.0.113.50"),
+        Some("127.0.0.5, 8.8.8.2, 8.8.8.3, 8.8.8.4, 8.8.8.5, 8.8.8.6, 8.8.8.7, 8.8.8.8, 8.8.8.9"),
+        Some("8.8.8.1, 8.8.8.2, 8.8.8.3, 8.8.8.4, 127.0.0.5, 8.8.8.6, 8.8.8.7, 8.8.8.8, 8.8.8.9, 8.8.8.10, 8.8.8.11, 8.8.8.12, 8.8.8.13, 8.8.8.14, 8.8.8.15, 8.8.8.16, 8.8.8.17, 8.8.8.18, 8.8.8.19, 8.8.8.20, 8.8.8.21, 8.8.8.22, 8.8.8.23, 8.8.8.24, 8.8.8.25, 8.8.8.26, 8.8.8.27, 8.8.8.28, 8.8.8.29, 8.8.8.30, 8.8.8.31, 8.8.8.32, 8.8.8.33"),
     ];
     let _ = client4;
     let mut jobs = vec![];
